@@ -13,7 +13,10 @@ func BuildExecutor(query string) (*SelectStmt, *FilterExec, error) {
 	if err != nil {
 		return nil, nil, err
 	}
-	vexpr := expr.(*SelectStmt)
+	vexpr, ok := expr.(*SelectStmt)
+	if !ok {
+		return nil, nil, NewSyntaxError(0, "Require a select statement")
+	}
 	return vexpr, &FilterExec{
 		Ast: vexpr.Where,
 	}, nil
